@@ -2,6 +2,7 @@
 
 use crate::mon::Ctx;
 
+pub mod c03;
 pub mod c09;
 pub mod c10;
 pub mod c11;
@@ -16,6 +17,8 @@ pub mod selftest;
 pub fn run(id: &str, ctx: &mut Ctx) -> bool {
     match id {
         "SELF" => selftest::run(ctx),
+        "C03" => c03::run(ctx),
+        "C03REPRO" => c03::repro(ctx),
         "C09" => c09::run(ctx),
         "C10" => c10::run(ctx),
         "C11" => c11::run(ctx),
